@@ -153,7 +153,7 @@ Dg(i) == ToString(i)
 Mix(r, i) == (r * 75 + i * 7919 + 74) % 65537
 Pick(r, seq) == seq[(r % Len(seq)) + 1]
 LitW == <<"1", "1", "2", "0", "-1", "1.0", "'a'", "'a'", "'ab'", "b'a'", "None", "True", "False">>
-ValW == <<"K.i1", "K.i1", "K.sa", "K.sa", "K.E", "K.E", "K.E", "K.none", "K.k", "K.missing">>
+ValW == <<"K.i1", "K.i1", "K.i1", "K.sa", "K.sa", "K.sa", "K.E", "K.E", "K.E", "K.E", "K.none", "K.none", "K.k", "K.k", "K.i1", "K.missing">>
 KeyW == <<"'k'", "1", "'j'", "K.sa", "K.i1", "K.k">>
 ClsW == <<"int", "str", "list", "dict", "float", "bool", "tuple", "P", "P", "P", "P2", "Q", "BadMA", "Boom", "E", "E", "E", "CSeq", "NotT">>
 ShapeSelf == << <<>>, <<"">>, <<"">>, <<"", "">> >>
@@ -241,7 +241,12 @@ WFP(p) == /\ \A i \in 1..Len(p.a) : WFP(p.a[i])
 WF(s) == \A j \in 1..Len(s.cases) :
             /\ WFP(s.cases[j].p) /\ NoDup(Names(s.cases[j].p, ""))
             /\ (j < Len(s.cases) /\ ~s.cases[j].g) => ~Irref(s.cases[j].p)
-Stmts == {s \in {GenStmt(k) : k \in 1..NStmts} : WF(s)}
+\* the table of statements, built once as an explicit tuple (the state carries the statement number only)
+RECURSIVE BuildTab(_, _)
+BuildTab(lo, hi) == IF lo > hi THEN <<>> ELSE IF lo = hi THEN <<GenStmt(lo)>>
+                    ELSE BuildTab(lo, (lo + hi) \div 2) \o BuildTab((lo + hi) \div 2 + 1, hi)
+StmtTab == BuildTab(1, NStmts)
+Valid == {k \in 1..NStmts : WF(StmtTab[k])}
 
 ---------------------------------------------------------------------------
 (* reference semantics.  Matching state: ok, env (records n name, v repr), log (events), exc *)
@@ -345,34 +350,34 @@ Sat(p, v) ==
                                /\ Sat(p.a[i], AttrOf(v, nm))
 
 ---------------------------------------------------------------------------
-VARIABLES phase, stmt, si, ci, env, log, exc, sel, gs
-vars == <<phase, stmt, si, ci, env, log, exc, sel, gs>>
+VARIABLES phase, sid, si, ci, env, log, exc, sel, gs
+vars == <<phase, sid, si, ci, env, log, exc, sel, gs>>
 
-NoStmt == [id |-> 0, cases |-> <<>>]
+stmt == StmtTab[sid]
 Subj == SubjSeq[si]
 Cur == stmt.cases[ci]
 
-Init == /\ phase = "stmt" /\ stmt \in Stmts /\ si = 0 /\ ci = 0 /\ env = <<>> /\ log = <<>> /\ exc = "" /\ sel = 0 /\ gs = <<>>
+Init == /\ phase = "stmt" /\ sid \in Valid /\ si = 0 /\ ci = 0 /\ env = <<>> /\ log = <<>> /\ exc = "" /\ sel = 0 /\ gs = <<>>
 PickSubject == /\ phase = "stmt" /\ phase' = "try" /\ si' \in 1..NSubj /\ ci' = 1
-               /\ UNCHANGED <<stmt, env, log, exc, sel, gs>>
+               /\ UNCHANGED <<sid, env, log, exc, sel, gs>>
 TryCase == /\ phase = "try" /\ ci <= Len(stmt.cases)
            /\ LET r == M(Cur.p, Subj, "", [ok |-> TRUE, env |-> <<>>, log |-> log, exc |-> ""]) IN
               /\ log' = r.log /\ exc' = r.exc
               /\ IF r.exc # "" THEN phase' = "done" /\ ci' = ci /\ env' = <<>>
                  ELSE IF r.ok THEN phase' = (IF Cur.g THEN "guard" ELSE "body") /\ ci' = ci /\ env' = r.env
                  ELSE phase' = "try" /\ ci' = ci + 1 /\ env' = <<>>
-           /\ UNCHANGED <<stmt, si, sel, gs>>
+           /\ UNCHANGED <<sid, si, sel, gs>>
 FallOff == /\ phase = "try" /\ ci > Len(stmt.cases) /\ phase' = "done"
-           /\ UNCHANGED <<stmt, si, ci, env, log, exc, sel, gs>>
+           /\ UNCHANGED <<sid, si, ci, env, log, exc, sel, gs>>
 GuardEv == Append(log, Ev("g", ci, env))
 GuardT == /\ phase = "guard" /\ phase' = "body" /\ log' = GuardEv /\ gs' = Append(gs, [i |-> ci, o |-> "T"])
-          /\ UNCHANGED <<stmt, si, ci, env, exc, sel>>
+          /\ UNCHANGED <<sid, si, ci, env, exc, sel>>
 GuardF == /\ phase = "guard" /\ phase' = "try" /\ log' = GuardEv /\ gs' = Append(gs, [i |-> ci, o |-> "F"]) /\ ci' = ci + 1 /\ env' = <<>>
-          /\ UNCHANGED <<stmt, si, exc, sel>>
+          /\ UNCHANGED <<sid, si, exc, sel>>
 GuardR == /\ phase = "guard" /\ phase' = "done" /\ log' = GuardEv /\ gs' = Append(gs, [i |-> ci, o |-> "R"]) /\ exc' = "GuardErr"
-          /\ UNCHANGED <<stmt, si, ci, env, sel>>
+          /\ UNCHANGED <<sid, si, ci, env, sel>>
 Body == /\ phase = "body" /\ phase' = "done" /\ log' = Append(log, Ev("b", ci, env)) /\ sel' = ci
-        /\ UNCHANGED <<stmt, si, ci, env, exc, gs>>
+        /\ UNCHANGED <<sid, si, ci, env, exc, gs>>
 Next == PickSubject \/ TryCase \/ FallOff \/ GuardT \/ GuardF \/ GuardR \/ Body
 Spec == Init /\ [][Next]_vars
 
@@ -398,10 +403,9 @@ GuardOrder == LET g == Events("g") IN
               /\ \A i \in 1..Len(g) : stmt.cases[g[i].i].g /\ (sel > 0 => g[i].i <= sel)
               /\ Len(g) = Len(gs)
 ExcFinal == exc # "" => phase = "done" /\ sel = 0
-StmtWF == phase = "stmt" => WF(stmt)
 
 Publish == /\ (Dump /\ phase = "stmt") => PrintT("@@" \o ToJson([stmt |-> stmt]))
-           /\ (Dump /\ phase = "done") => PrintT("@@" \o ToJson([id |-> stmt.id, si |-> si, gs |-> [i \in 1..Len(gs) |-> gs[i].o],
+           /\ (Dump /\ phase = "done") => PrintT("@@" \o ToJson([id |-> sid, si |-> si, gs |-> [i \in 1..Len(gs) |-> gs[i].o],
                                                                   log |-> log, exc |-> exc, sel |-> sel]))
 ASSUME Dump => PrintT("@@" \o ToJson([subjects |-> [i \in 1..NSubj |-> Rp(SubjSeq[i])]]))
 =============================================================================
